@@ -392,6 +392,43 @@ def case_second(mon, planet, jde):
               2 * a * ecc * math.radians(hi) * dt * 2 + 1e-9, case)
 
 
+def case_apparent_hours(mon, planet, jde, h):
+    """Apparent positions asked for a few minutes to hours apart, one after
+    the other: at each instant apparent - geometric (FK5) is the nutation in
+    longitude of *that* instant - taken from the monitor's own series, not
+    from the library's nutation_longitude(), which an answer kept from the
+    previous instant would agree with - plus the aberration term."""
+    from pymeeus.Epoch import Epoch
+    from pymeeus import Coordinates as C
+    from vpm.oracles import nutation as N
+    mod, cls = get(planet)
+    lo, hi = jd_of_year(-2000.0), jd_of_year(4000.0)
+    for jx in (jde, jde + h, jde - 0.5 * h, jde + 1.0 / 86400.0, jde):
+        if not lo <= jx <= hi:
+            continue
+        mon.evals += 1
+        case = {"planet": planet, "jde": jx, "first_asked": jde, "hours":
+                h * 24.0}
+        try:
+            e = Epoch(jx)
+            La, Ba, Ra = cls.apparent_heliocentric_position(e)
+            L1, B1, R1 = cls.geometric_heliocentric_position(e)
+            nl = C.nutation_longitude(Epoch(jx))()
+            dpsi = N.nutation(jx)[0] / 3600.0
+        except Exception as ex_:
+            mon.dev("apparent.nutation-of-the-instant",
+                    dict(case, raised=repr(ex_)))
+            return
+        ab = -20.4898 / R1 / 3600.0
+        mon.check("apparent.nutation-of-the-instant",
+                  abs(wrap(La() - L1()) - (dpsi + ab)) <= 1e-8
+                  and abs(nl - dpsi) <= 1e-8 and Ba() == B1() and Ra == R1,
+                  lambda: dict(case, apparent_minus_geometric=wrap(
+                      La() - L1()), series_nutation=dpsi, aberration=ab,
+                      library_nutation_longitude=nl))
+    mon.cls("apparent-hours-apart", (planet, jde, h))
+
+
 def case_const(mon, planet):
     """Secular rate of the series against the element tables; Kepler III."""
     from pymeeus.Epoch import Epoch
@@ -423,7 +460,7 @@ def case_const(mon, planet):
 
 
 CASES = {"tables": case_tables, "history": history.case, "epoch": case_epoch, "walk": case_walk, "second": case_second,
-         "const": case_const}
+         "const": case_const, "apparent_hours": case_apparent_hours}
 
 
 def run(mon, spec):
@@ -466,6 +503,10 @@ def run(mon, spec):
             if k % 8 == 0:
                 mon.begin("second", [planet, jd])
                 case_second(mon, planet, jd)
+            if k % 8 == 2:
+                h = rng.choice((1.0 / 1440, 20.0 / 1440, 0.125, 0.3, 0.9))
+                mon.begin("apparent_hours", [planet, jd, h])
+                case_apparent_hours(mon, planet, jd, h)
             if k % 8 == 4:
                 # within an arc-minute of the 360 -> 0 passage, where the
                 # corrected longitudes are on either side of the origin
